@@ -3,6 +3,7 @@ import GoCrypt.Proofs.Parse
 import GoCrypt.Spec.RefParse
 import GoCrypt.Gen.Facts
 import GoCrypt.Proofs.Dispatch
+import GoCrypt.Props.DispatchFlow
 
 /-!
 # C07 — top-level Check dispatches on the hash prefix to the latest registered checker
@@ -169,4 +170,12 @@ example : GoCrypt.Gen.Facts.prefixConsts.length = 15 := by decide
 #print axioms builtins_registered
 #print axioms registrations_only_in_init
 
+-- the dispatcher IS the current code (Props/DispatchFlow.lean): crypt.Check / RegisterHash and the lexer's lexPrefix, regenerated from the source into a
+-- structured IR, evaluate to the hand models for all inputs (no slice in Check can panic; the registry is unchanged by Check)
+#print axioms GoCrypt.DispatchFlow.checkFlow_eq_model
+#print axioms GoCrypt.DispatchFlow.checkFlow_registry_unchanged
+#print axioms GoCrypt.DispatchFlow.checkFlow_returns
+#print axioms GoCrypt.DispatchFlow.registerFlow_eq_model
+#print axioms GoCrypt.DispatchFlow.translated_fragment
+#print axioms GoCrypt.DispatchFlow.lexPrefixFlow_prefix_eq_dispatch
 end GoCrypt.C07
